@@ -8,7 +8,7 @@
    midnight off X is the instant at which local day number X starts. *)
 From Coq Require Import ZArith List Bool.
 From MV Require Import C19.ChronoModel C19.ChronoRun C19.CivilProofs C19.ChronoProofs C19.FastProofs
-  C19.StateLineModel C19.StateLineRun C19.StateLineProofs C19.ZoneModel C19.ZoneProofs.
+  C19.StateLineModel C19.StateLineRun C19.StateLineProofs C19.ZoneModel C19.ZoneProofs C19.ZoneWeekProofs.
 Import ListNotations.
 Open Scope Z_scope.
 
@@ -491,6 +491,244 @@ Example C19_dst_day_example :   (* New_York 2024-03-10 12:00 EDT (a 23-hour day)
   (* Havana 2024-03-10 has no 00:00:00 (DST starts at local midnight): the hypothesis fails, GetStartOfDay returns 23:00 of March 9th *)
   midnight_regular havana_table 19792 = false /\
   z_date_of havana_table (z_get_start_of_day havana_table (1710088200 * NS)) = (2024, 3, 9).
+Proof. vm_compute. intuition reflexivity. Qed.
+
+(* ---- (d) same day / same week / same month over a table.  IsSameDay compares GetStartOfDay of the two instants,
+   IsSameWeek the Monday-based GetStartOfWeek, IsSameMonth (year, month): each is an equivalence relation for EVERY table
+   (no hypothesis at all, not even sortedness), equal civil dates are always the same day, the same day is always the
+   same week.  With regular midnights (zone_okb B D z, 2B <= D): same day = equal civil dates (midnights of both days
+   regular: without the second one a day whose midnight was skipped can be "the same day" as the day time.Date moved
+   that midnight into), = b inside [start of a's day, start of the NEXT civil day) (midnights of a's day and of the
+   next day regular), and that civil day lasts 24 h minus the offset change in between (23 h / 25 h on transition days) *)
+Theorem C19_dst_same_day_equivalence : forall z,
+  ((forall a, z_is_same_day z a z a = true) /\
+   (forall a b, z_is_same_day z a z b = z_is_same_day z b z a) /\
+   (forall a b c, z_is_same_day z a z b = true -> z_is_same_day z b z c = true -> z_is_same_day z a z c = true)) /\
+  ((forall a, z_is_same_week z a z a = true) /\
+   (forall a b, z_is_same_week z a z b = z_is_same_week z b z a) /\
+   (forall a b c, z_is_same_week z a z b = true -> z_is_same_week z b z c = true -> z_is_same_week z a z c = true)) /\
+  ((forall a, z_is_same_month z a z a = true) /\
+   (forall a b, z_is_same_month z a z b = z_is_same_month z b z a) /\
+   (forall a b c, z_is_same_month z a z b = true -> z_is_same_month z b z c = true -> z_is_same_month z a z c = true)) /\
+  (forall a b, z_is_same_day z a z b = true <-> z_get_start_of_day z a = z_get_start_of_day z b) /\
+  (forall a b, z_date_of z a = z_date_of z b -> z_is_same_day z a z b = true) /\
+  (forall a b, z_is_same_day z a z b = true -> z_is_same_week z a z b = true) /\
+  (forall a b, z_is_same_month z a z b = true <-> z_year_of z a = z_year_of z b /\ z_month_of z a = z_month_of z b) /\
+  (forall a b, z_date_of z a = z_date_of z b -> z_is_same_month z a z b = true) /\
+  (forall B D, zone_okb B D z = true -> 2 * B <= D ->
+     (forall a b, midnight_regular z (z_lday z a) = true -> midnight_regular z (z_lday z b) = true ->
+        (z_is_same_day z a z b = true <-> z_date_of z a = z_date_of z b)) /\
+     (forall a, midnight_regular z (z_lday z a) = true -> midnight_regular z (z_lday z a + 1) = true ->
+        let s := z_get_start_of_day z a in
+        let e := z_midnight z (z_lday z a + 1) in
+        (forall b, z_date_of z a = z_date_of z b <-> s <= b < e) /\
+        (forall b, midnight_regular z (z_lday z b) = true -> (z_is_same_day z a z b = true <-> s <= b < e)) /\
+        e - s = (DAY_S - (zoff z e - zoff z s)) * NS /\ DAY - 2 * B * NS <= e - s <= DAY + 2 * B * NS)).
+Proof. exact dst_same_day_ok. Qed.
+Print Assumptions C19_dst_same_day_equivalence.
+
+Example C19_dst_same_day_example :   (* New_York 2024-03-10 (23 h): 00:00 EST = 05:00 UTC .. 2024-03-11 00:00 EDT = 04:00 UTC *)
+  let a := 1710086400 * NS in          (* 2024-03-10 12:00 EDT *)
+  midnight_regular ny_table (z_lday ny_table a) = true /\ midnight_regular ny_table (z_lday ny_table a + 1) = true /\
+  z_midnight ny_table (z_lday ny_table a + 1) - z_get_start_of_day ny_table a = 23 * HOUR /\
+  z_is_same_day ny_table a ny_table (1710046800 * NS) = true /\            (* 00:00:00 EST *)
+  z_is_same_day ny_table a ny_table (1710129600 * NS - 1) = true /\        (* 23:59:59.999999999 EDT *)
+  z_is_same_day ny_table a ny_table (1710129600 * NS) = false /\           (* next midnight, only 23 h later *)
+  z_is_same_day ny_table a ny_table (1710046800 * NS - 1) = false /\
+  z_is_same_week ny_table a ny_table (1710129600 * NS) = false /\ z_is_same_month ny_table a ny_table (1710129600 * NS) = true /\
+  (* Havana 2024-03-10 has no midnight: GetStartOfDay of that day is 23:00 of the 9th, not the 00:00 of the 9th, so even
+     there the two days are not confused; the hypothesis midnight_regular fails *)
+  midnight_regular havana_table 19792 = false /\
+  z_is_same_day havana_table (1710088200 * NS) havana_table (1710000000 * NS) = false.
+Proof. vm_compute. intuition reflexivity. Qed.
+
+(* ---- (e) start / end of week over a table.  week_day X w = monday_of X + (w + 6) mod 7 is the civil day the
+   fixed-offset computation aims at (weekday w of the Monday-based week of civil day X).  If local midnight of t's
+   civil day and of that target day exist exactly once: the result IS on that civil day, has weekday w, reads
+   00:00:00.0, is the exact boundary of that day (so it is <= t iff the target day is not after t's day), at the stated
+   distance from t (below 7 x 24 h + 2B).  With Monday's midnight regular: Monday 00:00:00 <= t, less than
+   7 x 24 h + 2B before t, r is (w+6) mod 7 civil days after it, and r's own week starts at the same Monday.  With
+   23:59:59 of the target day regular: GetEndOfWeek is 23:59:59.0 of that civil day, and [r, e + 1 s) is exactly that day *)
+Theorem C19_dst_start_of_week : forall B D z t w, zone_okb B D z = true -> 2 * B <= D -> 0 <= w <= 6 ->
+  midnight_regular z (z_lday z t) = true ->
+  midnight_regular z (week_day (z_lday z t) w) = true ->
+  let r := z_get_start_of_week z t w in
+  z_lday z r = week_day (z_lday z t) w /\
+  z_weekday_of z r = w /\ z_clock_of z r = (0, 0, 0) /\ nsec r = 0 /\
+  (forall x, r <= x <-> week_day (z_lday z t) w <= z_lday z x) /\
+  (r <= t <-> week_day (z_lday z t) w <= z_lday z t) /\
+  r - t = ((week_day (z_lday z t) w - z_lday z t) * DAY_S - z_sod z t - (zoff z r - zoff z t)) * NS - nsec t /\
+  - (WEEK + 2 * B * NS) < r - t < WEEK + 2 * B * NS /\
+  (midnight_regular z (monday_of (z_lday z t)) = true ->
+     let mon := z_get_start_of_week z t 1 in
+     z_lday z mon = monday_of (z_lday z t) /\ z_weekday_of z mon = 1 /\ z_clock_of z mon = (0, 0, 0) /\ nsec mon = 0 /\
+     mon <= t /\ t - mon < WEEK + 2 * B * NS /\ mon <= r /\
+     r - mon = (((w + 6) mod 7) * DAY_S - (zoff z r - zoff z mon)) * NS /\ r - mon < WEEK + 2 * B * NS /\
+     z_get_start_of_week z r 1 = mon) /\
+  (wall_regular z (week_day (z_lday z t) w * DAY_S + 86399) = true ->
+     let e := z_get_end_of_week z t w in
+     z_lday z e = week_day (z_lday z t) w /\ z_weekday_of z e = w /\ z_clock_of z e = (23, 59, 59) /\ nsec e = 0 /\
+     e + SECOND - r = (DAY_S - (zoff z e - zoff z r)) * NS /\
+     (forall x, r <= x < e + SECOND <-> z_lday z x = week_day (z_lday z t) w)).
+Proof. intros B D z t w H. exact (dst_start_of_week B D z t w (zone_okb_ok B D z H)). Qed.
+Print Assumptions C19_dst_start_of_week.
+
+Example C19_dst_start_of_week_example :
+  (* New_York, Sunday 2024-03-10 12:00 EDT (the transition day): Monday = 2024-03-04 00:00 EST, 6 d 11 h earlier (not
+     6 d 12 h); the Sunday of that week is the transition day itself, 00:00 EST *)
+  let t := 1710086400 * NS in
+  z_lday ny_table t = 19792 /\ week_day 19792 1 = 19786 /\ week_day 19792 0 = 19792 /\
+  midnight_regular ny_table 19792 = true /\ midnight_regular ny_table 19786 = true /\
+  wall_regular ny_table (19792 * DAY_S + 86399) = true /\
+  z_get_start_of_week ny_table t 1 = 1709528400 * NS /\ t - z_get_start_of_week ny_table t 1 = 6 * DAY + 11 * HOUR /\
+  z_get_start_of_week ny_table t 0 = 1710046800 * NS /\ z_get_end_of_week ny_table t 0 = 1710129599 * NS /\
+  z_get_end_of_week ny_table t 0 + SECOND - z_get_start_of_week ny_table t 1 = WEEK - HOUR.
+Proof. vm_compute. intuition reflexivity. Qed.
+
+(* ---- (f) relative week start over a table (the code REPAIRED by fixes/C19-dst-calendar-arithmetic.patch: AddDate(0,0,-7)
+   and AddDate(0,0,7k) instead of 168-hour shifts; C19_dst_relative_week_168h_refuted below shows that the code as
+   written violates the statement).  X = civil day of t; steps_back X w = the code first goes back a week (t's weekday,
+   Sunday counted 7, is before the requested one); latest_weekday X w = the latest civil day <= X whose weekday is w.
+   Hypotheses (decidable): when stepping back, t's wall clock a week earlier is regular; the midnights of the day the
+   week computation starts from (X or X - 7), of the day latest_weekday X w and of the resulting day are regular.
+   Then r0 (k = 0) is 00:00:00.0 of civil day latest_weekday X w — weekday w, at most 6 civil days before t's day,
+   not after t, the exact boundary of that civil day, and (tomorrow's midnight regular) the LATEST instant not after t
+   that reads weekday w 00:00:00.0; r is 00:00:00.0 exactly 7k CIVIL days later (weekday w), at 7k x 24 h minus the
+   offset change; the relative end / time of week are 23:59:59.0 / t's own wall clock on that civil day when those
+   wall clocks are regular there *)
+Theorem C19_dst_relative_week_start : forall B D z t w k, zone_okb B D z = true -> 2 * B <= D -> 0 <= w <= 6 ->
+  (steps_back (z_lday z t) w = true -> wall_regular z ((z_lday z t - 7) * DAY_S + z_sod z t) = true) ->
+  midnight_regular z (rel_week_base (z_lday z t) w) = true ->
+  midnight_regular z (latest_weekday (z_lday z t) w) = true ->
+  midnight_regular z (latest_weekday (z_lday z t) w + 7 * k) = true ->
+  let r := z_get_relative_start_of_week z t w k in
+  let r0 := z_get_relative_start_of_week z t w 0 in
+  z_lday z r0 = latest_weekday (z_lday z t) w /\
+  z_weekday_of z r0 = w /\ z_clock_of z r0 = (0, 0, 0) /\ nsec r0 = 0 /\
+  z_lday z r0 <= z_lday z t < z_lday z r0 + 7 /\ r0 <= t /\ t - r0 < WEEK + 2 * B * NS /\
+  (forall x, r0 <= x <-> latest_weekday (z_lday z t) w <= z_lday z x) /\
+  (midnight_regular z (z_lday z t + 1) = true ->
+     forall x, z_weekday_of z x = w -> z_clock_of z x = (0, 0, 0) -> nsec x = 0 -> x <= t -> x <= r0) /\
+  z_lday z r = z_lday z r0 + 7 * k /\
+  z_weekday_of z r = w /\ z_clock_of z r = (0, 0, 0) /\ nsec r = 0 /\
+  (forall x, r <= x <-> latest_weekday (z_lday z t) w + 7 * k <= z_lday z x) /\
+  r - r0 = (7 * k * DAY_S - (zoff z r - zoff z r0)) * NS /\
+  (wall_regular z ((latest_weekday (z_lday z t) w + 7 * k) * DAY_S + 86399) = true ->
+     let e := z_get_relative_end_of_week z t w k in
+     z_lday z e = z_lday z r /\ z_clock_of z e = (23, 59, 59) /\ nsec e = 0 /\
+     e + SECOND - r = (DAY_S - (zoff z e - zoff z r)) * NS) /\
+  (wall_regular z ((latest_weekday (z_lday z t) w + 7 * k) * DAY_S + z_sod z t) = true ->
+     let rt := z_get_relative_time_of_week z t w k in
+     z_lday z rt = z_lday z r /\ z_clock_of z rt = z_clock_of z t /\ nsec rt = nsec t).
+Proof. intros B D z t w k H. exact (dst_relative_week_start B D z t w k (zone_okb_ok B D z H)). Qed.
+Print Assumptions C19_dst_relative_week_start.
+
+Example C19_dst_relative_week_start_example :
+  (* the witness of C19_dst_relative_week_168h_refuted: New_York, Monday 2024-03-11 00:30 EDT, week starts on Tuesday:
+     steps back to Monday 2024-03-04 00:30 EST (regular), answer Tuesday 2024-03-05 00:00 EST; k = 1: Tuesday 2024-03-12
+     00:00 EDT, 167 h later *)
+  let t := 1710131400 * NS in
+  z_lday ny_table t = 19793 /\ steps_back 19793 2 = true /\ rel_week_base 19793 2 = 19786 /\ latest_weekday 19793 2 = 19787 /\
+  wall_regular ny_table ((19793 - 7) * DAY_S + z_sod ny_table t) = true /\ midnight_regular ny_table 19786 = true /\
+  midnight_regular ny_table 19787 = true /\ midnight_regular ny_table (19787 + 7 * 1) = true /\
+  midnight_regular ny_table (19793 + 1) = true /\
+  z_get_relative_start_of_week ny_table t 2 0 = 1709614800 * NS /\
+  z_get_relative_start_of_week ny_table t 2 1 - z_get_relative_start_of_week ny_table t 2 0 = WEEK - HOUR /\
+  (* Sunday 2024-03-10 12:00 EDT, week starts on Sunday: the transition day itself, 00:00 EST; k = -1: 2024-03-03 *)
+  steps_back 19792 0 = false /\ latest_weekday 19792 0 = 19792 /\ midnight_regular ny_table 19792 = true /\
+  z_get_relative_start_of_week ny_table (1710086400 * NS) 0 0 = 1710046800 * NS /\
+  z_date_of ny_table (z_get_relative_start_of_week ny_table (1710086400 * NS) 0 (-1)) = (2024, 3, 3).
+Proof. vm_compute. intuition reflexivity. Qed.
+
+(* ---- (h) the week window over a table (REPAIRED form: end = start.AddDate(0,0,7); C19_dst_week_window_168h_refuted shows
+   that start + 168 h can end before its anchor).  If the midnights of t's civil day, of its Monday and of the next
+   Monday exist exactly once: the window contains its anchor, starts at Monday 00:00:00.0 of t's week, ends at the next
+   Monday 00:00:00.0, is EXACTLY the set of instants whose civil day is one of those 7 days, lasts 7 x 24 h minus the
+   offset change between its ends (167 h / 169 h in a week with a transition), and the window of its end starts there
+   (consecutive windows tile the time line) *)
+Theorem C19_dst_week_window_contains_anchor : forall B D z t, zone_okb B D z = true -> 2 * B <= D ->
+  midnight_regular z (z_lday z t) = true ->
+  midnight_regular z (monday_of (z_lday z t)) = true ->
+  midnight_regular z (monday_of (z_lday z t) + 7) = true ->
+  let p := z_new_period_window_week z t in
+  pstart p <= t < pend p /\
+  pstart p = z_get_start_of_week z t 1 /\
+  z_lday z (pstart p) = monday_of (z_lday z t) /\ z_weekday_of z (pstart p) = 1 /\
+  z_clock_of z (pstart p) = (0, 0, 0) /\ nsec (pstart p) = 0 /\
+  z_lday z (pend p) = z_lday z (pstart p) + 7 /\ z_weekday_of z (pend p) = 1 /\
+  z_clock_of z (pend p) = (0, 0, 0) /\ nsec (pend p) = 0 /\
+  (forall x, pstart p <= x < pend p <-> monday_of (z_lday z t) <= z_lday z x < monday_of (z_lday z t) + 7) /\
+  pend p - pstart p = (7 * DAY_S - (zoff z (pend p) - zoff z (pstart p))) * NS /\
+  WEEK - 2 * B * NS <= pend p - pstart p <= WEEK + 2 * B * NS /\
+  pstart (z_new_period_window_week z (pend p)) = pend p.
+Proof. intros B D z t H. exact (dst_week_window B D z t (zone_okb_ok B D z H)). Qed.
+Print Assumptions C19_dst_week_window_contains_anchor.
+
+Example C19_dst_week_window_example :
+  (* Berlin, Sunday 2024-03-31 12:00 CEST (the transition day): [Monday 03-25 00:00 CET, Monday 04-01 00:00 CEST), 167 h;
+     New_York, the anchor of C19_dst_week_window_168h_refuted (Sunday 2024-11-03 23:30 EST): a window of 169 h *)
+  let t := 1711879200 * NS in
+  z_lday berlin_table t = 19813 /\ monday_of 19813 = 19807 /\
+  midnight_regular berlin_table 19813 = true /\ midnight_regular berlin_table 19807 = true /\
+  midnight_regular berlin_table (19807 + 7) = true /\
+  z_new_period_window_week berlin_table t = (1711321200 * NS, 1711922400 * NS) /\
+  1711922400 * NS - 1711321200 * NS = WEEK - HOUR /\
+  (let p := z_new_period_window_week ny_table (1730694600 * NS) in
+   midnight_regular ny_table (z_lday ny_table (1730694600 * NS)) = true /\
+   midnight_regular ny_table (monday_of (z_lday ny_table (1730694600 * NS))) = true /\
+   midnight_regular ny_table (monday_of (z_lday ny_table (1730694600 * NS)) + 7) = true /\
+   pend p - pstart p = WEEK + HOUR).
+Proof. vm_compute. intuition reflexivity. Qed.
+
+(* ---- (i) next moment over a table (REPAIRED form: tomorrow's moment rebuilt with time.Date(day + 1); instant and time.Local
+   in the same zone).  q = h:m:s as second of the day, X = civil day of t, Y = next_moment_day z t q = the civil day the
+   helper lands on (X + 1 iff today's h:m:s, as time.Date resolves it, is not after t).
+   Hypotheses: h:m:s is regular today (on X) and on the landing day Y.  Then the result is strictly after t, on civil
+   day Y (today or tomorrow), reads h:m:s.0, at the stated distance (at most 24 h + 2B), is the exact boundary "wall
+   clock >= Y h:m:s", and — when h:m:s is also regular on day Y - 1 (yesterday if the result is today's, else already
+   assumed) — no instant in (t, r) reads h:m:s.0.
+   EXCLUDED, precisely: (1) today's h:m:s in a gap or repeated interval of the table (the comparison with now is then
+   made against what time.Date substitutes; C19_dst_next_moment_adddate_refuted is about that case); (2) the landing
+   day's h:m:s in a gap: the open finding C19-next-moment-in-a-midnight-gap — when tomorrow's h:m:s is skipped and
+   time.Date resolves it backwards across midnight the result is in the PAST (Example below, Havana); (3) for minimality,
+   yesterday's h:m:s shown twice with the second showing after t. *)
+Theorem C19_dst_next_moment : forall B D z t h m s, zone_okb B D z = true -> 2 * B <= D ->
+  0 <= h < 24 -> 0 <= m < 60 -> 0 <= s < 60 ->
+  let q := h * 3600 + m * 60 + s in
+  let Y := next_moment_day z t q in
+  wall_regular z (z_lday z t * DAY_S + q) = true ->
+  wall_regular z (Y * DAY_S + q) = true ->
+  let r := z_get_next_moment z z t h m s in
+  t < r /\ z_lday z r = Y /\ z_lday z t <= Y <= z_lday z t + 1 /\ z_clock_of z r = (h, m, s) /\ nsec r = 0 /\
+  r - t = ((Y - z_lday z t) * DAY_S + q - z_sod z t - (zoff z r - zoff z t)) * NS - nsec t /\
+  r - t <= DAY + 2 * B * NS /\
+  (forall x, r <= x <-> Y * DAY_S + q <= z_lday z x * DAY_S + z_sod z x) /\
+  (wall_regular z ((Y - 1) * DAY_S + q) = true ->
+     forall x, t < x -> z_clock_of z x = (h, m, s) -> nsec x = 0 -> r <= x) /\
+  (z_is_moment_passed z z t h m s = true -> Y = z_lday z t + 1) /\
+  (Y = z_lday z t <-> t < z_wall_inst z (z_lday z t) q) /\
+  z_is_moment_future z z t h m s = negb (z_is_moment_passed z z t h m s).
+Proof. intros B D z t h m s H. exact (dst_next_moment B D z t h m s (zone_okb_ok B D z H)). Qed.
+Print Assumptions C19_dst_next_moment.
+
+Example C19_dst_next_moment_example :
+  (* New_York 2024-03-10 01:00 EST, 03:00:00 asked: regular on the transition day (it is the instant of the transition),
+     one hour away, not two *)
+  let t := 1710050400 * NS in
+  z_lday ny_table t = 19792 /\ next_moment_day ny_table t 10800 = 19792 /\
+  wall_regular ny_table (19792 * DAY_S + 10800) = true /\ wall_regular ny_table ((19792 - 1) * DAY_S + 10800) = true /\
+  z_get_next_moment ny_table ny_table t 3 0 0 = t + HOUR /\
+  (* 2024-03-09 12:00 EST, 03:30:00 asked: today's has passed, tomorrow's (the transition day) is regular: 14.5 h away *)
+  (let t2 := 1710003600 * NS in
+   next_moment_day ny_table t2 12600 = 19792 /\ wall_regular ny_table (19791 * DAY_S + 12600) = true /\
+   wall_regular ny_table (19792 * DAY_S + 12600) = true /\
+   z_get_next_moment ny_table ny_table t2 3 30 0 - t2 = 14 * HOUR + 30 * MINUTE) /\
+  (* excluded: Havana 2024-03-09 23:56:40 CST, 00:12:32 asked: tomorrow's 00:12:32 is in the gap at local midnight, the
+     hypothesis on the landing day fails and the result is 23:12:32 of TODAY, before now (C19-next-moment-in-a-midnight-gap) *)
+  (let t3 := 1710046600 * NS in
+   next_moment_day havana_table t3 752 = 19792 /\ wall_regular havana_table (19792 * DAY_S + 752) = false /\
+   z_get_next_moment havana_table havana_table t3 0 12 32 = 1710043952 * NS /\
+   z_clock_of havana_table (1710043952 * NS) = (23, 12, 32) /\ (1710043952 * NS <? t3) = true).
 Proof. vm_compute. intuition reflexivity. Qed.
 
 (* ---- (g) the code AS WRITTEN before fixes/C19-dst-calendar-arithmetic.patch (168-hour weeks, AddDate applied to a
